@@ -10,7 +10,7 @@
 #include "verif.h"
 using namespace smt;
 
-#define MAXV 14
+#define MAXV 20
 #define NVAL 3
 static bool a[MAXV];
 static inline bool lvalm(const bool *m, const lit &p) { return sign(p) ? m[variable(p)] : !m[variable(p)]; }
@@ -181,7 +181,7 @@ extern "C" void h_ov()
 // large domains (5 and more values): ov_theory::new_var goes through the grid encoding of exactly-one.
 //   PARAM(0) = number of values n.   For ALL total assignments: in every model the variable has exactly one value, and the
 //   reported domain after choosing a value (assume its literal) is that value alone.
-#define MAXW 26
+#define MAXW 30
 extern "C" void h_big()
 {
   const int n = PARAM(0);
